@@ -27,6 +27,16 @@ fn roundtrip<S: Src, const NC: usize, const NI: usize, const L: usize, const B: 
     s: &mut S,
     c: &SdesCfg<NC, NI, L>,
 ) {
+    roundtrip_with::<S, NC, NI, L, B>(s, c, false)
+}
+
+/// `rejected`: the instance is rejected by construction (a text beyond its limit), so the
+/// acceptance covers are not demanded of it.
+fn roundtrip_with<S: Src, const NC: usize, const NI: usize, const L: usize, const B: usize>(
+    s: &mut S,
+    c: &SdesCfg<NC, NI, L>,
+    rejected: bool,
+) {
     let kc = s.upto(if NC > 0 { NC - 1 } else { 0 });
     let ki = s.upto(if NI > 0 { NI - 1 } else { 0 });
     let mut buf = [0xA5u8; B];
@@ -40,6 +50,7 @@ fn roundtrip<S: Src, const NC: usize, const NI: usize, const L: usize, const B: 
         q += 1;
     }
     let mut compared = false;
+    let mut accepted = false;
     match r {
         Ok(n) => {
             assert!(n + 4 <= B, "HARNESS: buffer array too small");
@@ -57,8 +68,7 @@ fn roundtrip<S: Src, const NC: usize, const NI: usize, const L: usize, const B: 
                     compared = true;
                 }
             }
-            vcover!(!any_items || compared, "an item compared");
-            vcover!(c.padding > 0, "padded SDES round trip");
+            accepted = true;
             forget(p);
         }
         Err(e) => {
@@ -66,6 +76,9 @@ fn roundtrip<S: Src, const NC: usize, const NI: usize, const L: usize, const B: 
             assert!(!matches!(e, RtcpWriteError::OutputTooSmall(_)));
         }
     }
+    vcover!(rejected || (accepted && (!any_items || compared)), "an item compared");
+    vcover!(rejected || (accepted && c.padding > 0), "padded SDES round trip");
+    vcover!(!rejected || !accepted, "rejected by construction");
 }
 
 pub fn sdes<S: Src, const NC: usize, const NI: usize, const L: usize, const B: usize>(s: &mut S, counts: [usize; NC], maxpad: u8) {
@@ -99,7 +112,8 @@ pub fn fixed<S: Src, const LEN: usize, const PLEN: usize>(s: &mut S, priv_: bool
     let chunk = ChunkCfg { ssrc: s.u32(), n: 1, items: [item] };
     let c = SdesCfg::<1, 1, 256> { padding: s.u8(), chunks: [chunk] };
     s.assume(c.padding <= 8);
-    roundtrip::<S, 1, 1, 256, 288>(s, &c);
+    let rejected = if priv_ { PLEN + 1 + LEN > 255 } else { LEN > 255 };
+    roundtrip_with::<S, 1, 1, 256, 288>(s, &c, rejected);
 }
 
 pub fn f_255<S: Src>(s: &mut S) { fixed::<S, 255, 0>(s, false) }
